@@ -103,6 +103,9 @@ pub fn domain(k: Kind, wide: bool) -> Vec<Val> {
             Val::Windows(vec![(0, b(&[0x62, 0x01])), (1, b(&[0x80]))]),
             Val::Windows(vec![(0, b(&[0x40])), (255, B(vec![0xff; 32]))]),
             Val::Windows(vec![(2, b(&[0, 0, 0x08])), (3, b(&[0x10])), (200, b(&[0x01]))]),
+            // a window block with an empty bitmap (representable on the wire, accepted by the parser)
+            Val::Windows(vec![(0, b(&[])), (1, b(&[0x40]))]),
+            Val::Windows(vec![(7, b(&[]))]),
         ],
         Kind::GwType => vec![],
         Kind::Gateway => vec![
@@ -232,6 +235,15 @@ pub fn vals_wire_representable(sch: &TypeSchema, vals: &[Val]) -> bool {
     let mut enc = Vec::new();
     schema::encode_vals(sch, vals, &mut enc);
     !enc.is_empty() && enc.len() <= 65535
+}
+
+/// Values that are canonical per the type's RFC (stricter than wire-representable): NSEC window
+/// bitmaps are 1..=32 octets (RFC 4034 4.1.2).
+pub fn vals_rfc_canonical(vals: &[Val]) -> bool {
+    vals.iter().all(|v| match v {
+        Val::Windows(ws) => ws.iter().all(|w| !w.1 .0.is_empty() && w.1 .0.len() <= 32),
+        _ => true,
+    })
 }
 
 pub const TTLS: [u32; 5] = [0, 1, 0x7fff_ffff, 0x8000_0000, 0xffff_ffff];
@@ -383,6 +395,38 @@ pub fn packet_space(k: usize, wide: bool, max_per_section: usize) -> Vec<RefPack
         let mut p = RefPacket { id: i as u16, ..Default::default() };
         p.questions.push(q.clone());
         out.push(p);
+    }
+    // size family: section counts across the 255/256 byte boundary, RDLENGTHs across 255 / 32767
+    for n in [255usize, 256, 257, 300] {
+        let mut p = RefPacket { id: n as u16, ..Default::default() };
+        for i in 0..n {
+            p.questions.push(RefQ { name: RefName(vec![b(format!("q{}", i).as_bytes())]), qtype: 1, qclass: 1, unicast: i % 2 == 0 });
+        }
+        out.push(p);
+        let mut p = RefPacket { id: n as u16, flags: F_QR, ..Default::default() };
+        for i in 0..n {
+            let r = RefRR { name: RefName(vec![b(format!("r{}", i).as_bytes())]), class: 1, cache_flush: false, ttl: i as u32, rdata: RefRData::Typed { code: 1, vals: vec![Val::U32(i as u32)] } };
+            match i % 3 {
+                0 => p.answers.push(r),
+                1 => p.authority.push(r),
+                _ => p.additional.push(r),
+            }
+        }
+        out.push(p);
+    }
+    for big in [256usize, 32767, 32768, 40000, 65000] {
+        let mut p = RefPacket { id: 0xb1b, flags: F_QR, ..Default::default() };
+        p.answers.push(rr("big.example", RefRData::Opaque { code: 10, data: bytes_n(big, 3) }));
+        p.answers.push(rr("after.example", RefRData::Typed { code: 1, vals: vec![Val::U32(1)] }));
+        out.push(p);
+        if big <= 40000 {
+            let mut p = RefPacket { id: 0xb1c, flags: F_QR, ..Default::default() };
+            p.answers.push(rr("big.example", RefRData::Typed { code: 48, vals: vec![Val::U16(257), Val::U8(3), Val::U8(8), Val::Tail(bytes_n(big - 4, 5))] }));
+            let n_str = big / 251;
+            p.additional.push(rr("txt.example", RefRData::Typed { code: 16, vals: vec![Val::Strs((0..n_str).map(|i| bytes_n(250, i as u8)).collect())] }));
+            p.opt = Some(RefOpt { udp: 4096, version: 0, options: vec![(12, bytes_n(big.min(20000), 9))] });
+            out.push(p);
+        }
     }
     // multi-entry: every shape (nq, na, nn, nr) in 0..=max, records drawn cyclically
     let base: Vec<RefRR> = SCHEMAS.iter().map(base_rr).collect();
@@ -587,6 +631,28 @@ pub fn sharing_space_size(nslots: usize) -> u64 {
     NAME_KINDS.len() as u64 * 15u64.pow(nslots as u32)
 }
 
+/// Names over {a, A} up to 2 labels: the same letters in different case (7 names).
+pub fn case_names() -> Vec<RefName> {
+    ["", "a", "A", "a.a", "a.A", "A.a", "A.A"].iter().map(|s| RefName::txt(s)).collect()
+}
+
+pub fn case_sharing_size(nslots: usize) -> u64 {
+    NAME_KINDS.len() as u64 * 7u64.pow(nslots as u32)
+}
+
+pub fn case_sharing_case(nslots: usize, index: u64) -> RefPacket {
+    let names = case_names();
+    let per = 7u64.pow(nslots as u32);
+    let (code, nn) = NAME_KINDS[(index / per) as usize];
+    let mut a = index % per;
+    let mut slots = Vec::with_capacity(nslots);
+    for _ in 0..nslots {
+        slots.push(names[(a % 7) as usize].clone());
+        a /= 7;
+    }
+    sharing_packet(code, nn, &slots)
+}
+
 pub fn sharing_case(nslots: usize, index: u64) -> RefPacket {
     let names = small_names();
     let per = 15u64.pow(nslots as u32);
@@ -649,4 +715,38 @@ pub fn big_shared_packet(n: usize, each: usize) -> RefPacket {
         p.answers.push(RefRR { name: owner, class: 1, cache_flush: false, ttl: i as u32, rdata: rdata_with_names(2, &[RefName(vec![b(format!("ns{}", i % 3).as_bytes()), b(b"example"), b(b"com")])]) });
     }
     p
+}
+
+
+/// Labels whose lossy rendering puts a multi-byte character at every byte offset up to the label
+/// limit (for code that slices or truncates rendered names at fixed byte positions).
+pub fn alignment_labels() -> Vec<Vec<u8>> {
+    let mut out: Vec<Vec<u8>> = Vec::new();
+    for k in 0..=61usize {
+        let mut l = vec![b'x'; k];
+        l.extend_from_slice("é".as_bytes());
+        out.push(l.clone());
+        if l.len() + 2 <= 63 {
+            l.extend_from_slice("é".as_bytes());
+            out.push(l);
+        }
+    }
+    for k in 0..=60usize {
+        let mut l = vec![b'x'; k];
+        l.extend_from_slice("€".as_bytes());
+        out.push(l);
+    }
+    for k in 0..=3usize {
+        for m in [21usize, 30, 63 - k] {
+            let mut l = vec![b'x'; k];
+            l.extend(std::iter::repeat(0xffu8).take(m.min(63 - k)));
+            out.push(l);
+        }
+    }
+    for k in [0usize, 1, 61, 62] {
+        let mut l = vec![b'x'; k];
+        l.push(0xc3); // a lead byte with nothing after it
+        out.push(l);
+    }
+    out
 }
